@@ -78,3 +78,15 @@ add("C05",
     "~200 (quick) to ~5*10^3 (thorough) accepted modules, ~70 expression nodes each, 100-600 environments per node (all 2^k corners when k<=9); finds unsound transfer functions (sign, swapped min/max, modulus), wrong constant folding, unsound gate decisions and loose bounds on the tight fragment.",
     "Trusts: my evaluator of the IR's operator semantics; leaf ranges of UInt/Int/Bcd by width; run-time = not under a constant-typed operator (as constraints.py defines it).",
     "DESIGN.md §4 C05")
+
+add("C02",
+    "differential property-based testing over configurations: generated bits/struct modules packing ~40 (type, width, container, offset) configurations each, read through LE/BE/Null fields on pattern and random contents, compared with an independent big-int decoder (embref.codec)",
+    "~1000 configurations x 2-3 byte orders x ~90 contents per quick run (key widths and offsets always included), ~20x more in thorough; finds shift/mask/sign-extension/Bcd/byte-order errors in the runtime and wrong view-type selection in the back end. Never exhaustive over contents; aligned fast paths not instantiated.",
+    "Trusts: embref.codec as the mathematical definition; g++ 12 on x86-64; signed enums narrower than their C++ type are a recorded known finding.",
+    "DESIGN.md §4 C02")
+
+add("C03",
+    "differential property-based testing of writes: generated modules with every writable field kind (struct/bits/anonymous/nested, aliases, invertible virtuals, [requires]), random and truncated buffers, boundary values and 1-6 step write sequences; CouldWriteValue / TryToWrite / full buffer / read-back compared with the embref write model",
+    "~30 modules x ~150 write sequences (quick) to ~400 x 400 (thorough): exact accept/reject boundaries for all widths, byte-exact neighbour preservation in read-modify-write, nothing changed on failure, algebraic inverse of write inference reads back.",
+    "Trusts: embref write model; values passed within the argument type of each method (Bcd/enum/virtual methods take their ValueType by value); writability of virtual fields read from the compiler's IR.",
+    "DESIGN.md §4 C03")
